@@ -1,6 +1,1121 @@
-//! C11 -- monitor (to be written)
-use crate::fw::ctx;
+//! C11 -- composition, adjoint and basis plugging of diagrams match linear algebra;
+//! identity predicate.
+//!
+//! Events: the real `GraphLike::{plug, append_graph, adjoint, to_adjoint, plug_inputs,
+//! plug_outputs, plug_input, plug_output, plug_vertex, is_identity}` (plus the helpers
+//! `x_to_z`, `copy`, `subgraph_from_vertices`) run on generated diagrams in both backends
+//! (and mixed backends where the call takes `&impl GraphLike`).
+//! Oracle: the independent evaluator O2 (`snap::eval_graph`) of operands and results and
+//! flat tensor algebra (`oracle::eval::{compose, tensor, dagger}` and the leg contraction
+//! below). Exact in Z[omega][1/2] when all phases are multiples of pi/4, 1e-8 otherwise.
+//!
+//! Readings (where the text leaves room, the reading that cannot blame correct code):
+//! * `plug_vertex` is documented as doing no normalisation and leaving the boundary lists
+//!   alone: the harness removes the vertex from the lists and expects sqrt2 * (normalised
+//!   state applied).
+//! * `plug_input(i, b)` / `plug_output(i, b)` are only called with the four real basis
+//!   elements (SKIP is not "a basis vertex").
+//! * lists longer than the number of wires are never passed (documented: length <= wires).
+//! * `copy` / `subgraph_from_vertices` are not part of the statement; only their vertex and
+//!   edge structure is checked, what they do with boundary lists and scalar is *observed*
+//!   (counters `observed:*`), never a verdict.
+
+use crate::fw::{ctx, guarded, par_cases, Caught};
+use crate::gen::diagram::*;
+use crate::gen::prng::{hash_bytes, Rng};
+use crate::oracle::eval::{self, EvalError, EK, VK};
+use crate::oracle::ring::{Cf, Num, R};
+use crate::snap::{eval_graph, graph_json, snap, Snap, Tens, FLOAT_TOL};
+use quizx::graph::{BasisElem, EType, GraphLike, VType, V};
+use serde_json::{json, Value};
+use std::collections::{BTreeMap, BTreeSet};
+
+type VG = quizx::vec_graph::Graph;
+type HG = quizx::hash_graph::Graph;
+
+// ------------------------------------------------------------------------------------
+// tensor algebra on `Tens`
+// ------------------------------------------------------------------------------------
+
+fn t_compose(a: &Tens, ai: usize, ao: usize, b: &Tens, bi: usize, bo: usize) -> Tens {
+    match (a, b) {
+        (Tens::Exact(x), Tens::Exact(y)) => Tens::Exact(eval::compose(x, ai, ao, y, bi, bo)),
+        _ => Tens::Float(eval::compose(&a.to_float(), ai, ao, &b.to_float(), bi, bo)),
+    }
+}
+
+fn t_tensor(a: &Tens, ai: usize, ao: usize, b: &Tens, bi: usize, bo: usize) -> Tens {
+    match (a, b) {
+        (Tens::Exact(x), Tens::Exact(y)) => Tens::Exact(eval::tensor(x, ai, ao, y, bi, bo)),
+        _ => Tens::Float(eval::tensor(&a.to_float(), ai, ao, &b.to_float(), bi, bo)),
+    }
+}
+
+fn t_dagger(a: &Tens, ni: usize, no: usize) -> Tens {
+    match a {
+        Tens::Exact(x) => Tens::Exact(eval::dagger(x, ni, no)),
+        Tens::Float(x) => Tens::Float(eval::dagger(x, ni, no)),
+    }
+}
+
+/// Contract leg `j` (0 = most significant) of a tensor with `nlegs` legs with the vector `s`.
+fn contract_leg<S: Num>(t: &[S], nlegs: usize, j: usize, s: &[S; 2]) -> Vec<S> {
+    assert!(j < nlegs && t.len() == 1usize << nlegs);
+    let sh = nlegs - 1 - j;
+    let mut out = Vec::with_capacity(t.len() / 2);
+    for idx in 0..(1usize << (nlegs - 1)) {
+        let hi = idx >> sh;
+        let lo = idx & ((1usize << sh) - 1);
+        let i0 = (hi << (sh + 1)) | lo;
+        let i1 = i0 | (1usize << sh);
+        out.push(t[i0].mul(&s[0]).add(&t[i1].mul(&s[1])));
+    }
+    out
+}
+
+/// The normalised basis vector of `b` times `scale`: Z0=|0>, Z1=|1>, X0=|+>, X1=|->.
+/// All four are real, so the same vector serves as state (input side) and effect (output side).
+fn basis_vec<S: Num>(b: BasisElem, inv_sqrt2: &S, scale: &S) -> [S; 2] {
+    let v = match b {
+        BasisElem::Z0 => [S::one(), S::zero()],
+        BasisElem::Z1 => [S::zero(), S::one()],
+        BasisElem::X0 => [inv_sqrt2.clone(), inv_sqrt2.clone()],
+        BasisElem::X1 => [inv_sqrt2.clone(), inv_sqrt2.neg()],
+        BasisElem::SKIP => unreachable!("SKIP has no vector"),
+    };
+    [v[0].mul(scale), v[1].mul(scale)]
+}
+
+/// Apply basis elements to the given legs (leg index, element); legs are contracted from the
+/// highest index down so that the remaining legs keep their relative order.
+/// `unnormalised`: every vector is multiplied by sqrt2 (semantics of `plug_vertex`).
+fn t_apply(t: &Tens, nlegs: usize, plugs: &[(usize, BasisElem)], unnormalised: bool) -> Tens {
+    let mut ps: Vec<(usize, BasisElem)> = plugs.iter().copied().filter(|p| p.1 != BasisElem::SKIP).collect();
+    ps.sort_by(|a, b| b.0.cmp(&a.0));
+    match t {
+        Tens::Exact(x) => {
+            let inv = R::sqrt2_pow(-1);
+            let scale = if unnormalised { R::sqrt2_pow(1) } else { R::one() };
+            let mut cur = x.clone();
+            let mut n = nlegs;
+            for (j, b) in ps {
+                cur = contract_leg(&cur, n, j, &basis_vec(b, &inv, &scale));
+                n -= 1;
+            }
+            Tens::Exact(cur)
+        }
+        Tens::Float(x) => {
+            let inv = Cf::new(std::f64::consts::FRAC_1_SQRT_2, 0.0);
+            let scale = if unnormalised { Cf::new(std::f64::consts::SQRT_2, 0.0) } else { Cf::new(1.0, 0.0) };
+            let mut cur = x.clone();
+            let mut n = nlegs;
+            for (j, b) in ps {
+                cur = contract_leg(&cur, n, j, &basis_vec(b, &inv, &scale));
+                n -= 1;
+            }
+            Tens::Float(cur)
+        }
+    }
+}
+
+/// Self-test of the leg contraction against hand-computed values (no quizx involved).
+fn self_test() -> Result<(), String> {
+    // CNOT tensor [i0 i1 o0 o1]
+    let mut cnot = vec![R::zero(); 16];
+    for (i, o) in [(0usize, 0usize), (1, 1), (2, 3), (3, 2)] {
+        cnot[(i << 2) | o] = R::one();
+    }
+    let t = Tens::Exact(cnot);
+    // plug |1> into input 0 and |+> into input 1: CNOT|1+> = |1+>
+    let s = t_apply(&t, 4, &[(0, BasisElem::Z1), (1, BasisElem::X0)], false);
+    let h = R::sqrt2_pow(-1);
+    let want = vec![R::zero(), R::zero(), h.clone(), h.clone()];
+    match &s {
+        Tens::Exact(v) if *v == want => {}
+        other => return Err(format!("CNOT|1+>: {:?}", other.brief())),
+    }
+    // effect <-| on output 1, input 1 left open, input 0 = |1>, output 0 = <1|:
+    // <1,-| CNOT |1,x> = <-|X|x> = (1/sqrt2)(<0|-<1|) X |x> = x=0: -1/sqrt2 ; x=1: 1/sqrt2
+    let s = t_apply(&t, 4, &[(0, BasisElem::Z1), (2, BasisElem::Z1), (3, BasisElem::X1), (1, BasisElem::SKIP)], false);
+    match &s {
+        Tens::Exact(v) if *v == vec![h.neg(), h.clone()] => {}
+        other => return Err(format!("<1-|CNOT|1x>: {:?}", other.brief())),
+    }
+    // unnormalised: sqrt2 per plugged leg
+    let s = t_apply(&t, 4, &[(0, BasisElem::Z0), (1, BasisElem::Z0), (2, BasisElem::Z0), (3, BasisElem::Z0)], true);
+    match &s {
+        Tens::Exact(v) if *v == vec![R::int(4)] => {}
+        other => return Err(format!("unnormalised: {:?}", other.brief())),
+    }
+    // float path agrees
+    let tf = Tens::Float(t.to_float());
+    let a = t_apply(&tf, 4, &[(3, BasisElem::X1), (0, BasisElem::X0)], false);
+    let b = t_apply(&t, 4, &[(0, BasisElem::X0), (3, BasisElem::X1)], false);
+    if !a.same(&b, 1e-12) {
+        return Err("float vs exact contraction".into());
+    }
+    Ok(())
+}
+
+// ------------------------------------------------------------------------------------
+// generators: diagrams with a prescribed number of inputs and outputs
+// ------------------------------------------------------------------------------------
+
+#[derive(Clone, Copy, Debug)]
+struct Shape {
+    max_spiders: usize,
+    pool: PhasePool,
+    graph_like: bool,
+    /// probability that a boundary is wired straight to the next boundary (bare wire, cap, cup)
+    bare_p: f64,
+    /// probability of a Hadamard edge at a boundary / on a bare wire
+    h_p: f64,
+    /// probability that a boundary goes to the same spider as the previous one
+    multi_p: f64,
+    /// pair boundaries of the same role first: bare wires become caps/cups
+    same_role_pairs: bool,
+}
+
+fn norm_edge(a: usize, b: usize, k: EK) -> (usize, usize, EK) {
+    (a.min(b), a.max(b), k)
+}
+
+fn gen_shaped(r: &mut Rng, sh: &Shape, n_in: usize, n_out: usize) -> DDesc {
+    let ns = r.below(sh.max_spiders + 1);
+    let mut verts = vec![];
+    let spider = |r: &mut Rng| DV {
+        kind: if sh.graph_like || r.chance(0.55) { VK::Z } else { VK::X },
+        ph: gen_phase(r, sh.pool),
+        vars: vec![],
+    };
+    for _ in 0..ns {
+        let s = spider(r);
+        verts.push(s);
+    }
+    let mut spiders: Vec<usize> = (0..ns).collect();
+    let mut edges = vec![];
+    let density = *r.pick(&[0.2, 0.4, 0.7]);
+    for a in 0..ns {
+        for b in (a + 1)..ns {
+            if r.chance(density) {
+                let k = if sh.graph_like || r.chance(0.5) { EK::H } else { EK::N };
+                edges.push((a, b, k));
+            }
+        }
+    }
+    let nb = n_in + n_out;
+    let mut roles: Vec<bool> = (0..nb).map(|i| i < n_in).collect(); // true = input
+    r.shuffle(&mut roles);
+    let b0 = verts.len();
+    for _ in 0..nb {
+        verts.push(DV { kind: VK::B, ph: (0, 1), vars: vec![] });
+    }
+    let mut order: Vec<usize> = (0..nb).collect();
+    r.shuffle(&mut order);
+    if sh.same_role_pairs {
+        order.sort_by_key(|&k| roles[k]);
+    }
+    let mut last: Option<usize> = None;
+    let mut i = 0;
+    while i < nb {
+        let b = b0 + order[i];
+        let ek = if r.chance(sh.h_p) { EK::H } else { EK::N };
+        let p_bare = if spiders.is_empty() { sh.bare_p.max(0.7) } else { sh.bare_p };
+        if i + 1 < nb && r.chance(p_bare) {
+            edges.push(norm_edge(b, b0 + order[i + 1], ek));
+            i += 2;
+            continue;
+        }
+        if spiders.is_empty() {
+            let s = verts.len();
+            let sp = spider(r);
+            verts.push(sp);
+            spiders.push(s);
+        }
+        let s = match last {
+            Some(l) if r.chance(sh.multi_p) => l,
+            _ => *r.pick(&spiders),
+        };
+        last = Some(s);
+        edges.push(norm_edge(s, b, ek));
+        i += 1;
+    }
+    let mut inputs: Vec<usize> = (0..nb).filter(|&k| roles[k]).map(|k| b0 + k).collect();
+    let mut outputs: Vec<usize> = (0..nb).filter(|&k| !roles[k]).map(|k| b0 + k).collect();
+    r.shuffle(&mut inputs);
+    r.shuffle(&mut outputs);
+    DDesc { verts, edges, inputs, outputs, scalar: gen_scalar(r) }
+}
+
+/// positions (in `list`) joined by a bare wire inside `d`
+fn wires_within(d: &DDesc, list: &[usize]) -> Vec<(usize, usize)> {
+    let pos: BTreeMap<usize, usize> = list.iter().enumerate().map(|(k, &v)| (v, k)).collect();
+    d.edges.iter().filter_map(|&(a, b, _)| Some((*pos.get(&a)?, *pos.get(&b)?))).collect()
+}
+
+/// Discriminating condition of a seam: what kind of boundary-to-boundary wiring it contains.
+fn seam_condition(g: &DDesc, h: &DDesc) -> &'static str {
+    let cups = wires_within(g, &g.outputs);
+    let caps = wires_within(h, &h.inputs);
+    // closed loop made of boundaries only: a connected component of the position graph in
+    // which the number of cup/cap wires equals the number of positions
+    let m = g.outputs.len();
+    let mut parent: Vec<usize> = (0..m).collect();
+    fn find(p: &mut Vec<usize>, x: usize) -> usize {
+        let mut r = x;
+        while p[r] != r {
+            r = p[r];
+        }
+        p[x] = r;
+        r
+    }
+    for &(a, b) in cups.iter().chain(caps.iter()) {
+        let (ra, rb) = (find(&mut parent, a), find(&mut parent, b));
+        if ra != rb {
+            parent[ra] = rb;
+        }
+    }
+    let mut nodes: BTreeMap<usize, usize> = BTreeMap::new();
+    let mut wires: BTreeMap<usize, usize> = BTreeMap::new();
+    for p in 0..m {
+        let c = find(&mut parent, p);
+        *nodes.entry(c).or_default() += 1;
+    }
+    for &(a, _) in cups.iter().chain(caps.iter()) {
+        let c = find(&mut parent, a);
+        *wires.entry(c).or_default() += 1;
+    }
+    if wires.iter().any(|(c, &w)| w >= nodes[c]) {
+        "boundary-only-closed-loop"
+    } else if !caps.is_empty() {
+        "other-has-input-input-wire"
+    } else if !cups.is_empty() {
+        "self-has-output-output-wire"
+    } else {
+        "plain-seam"
+    }
+}
+
+// ------------------------------------------------------------------------------------
+// small helpers
+// ------------------------------------------------------------------------------------
+
+fn pclass(e: &Caught) -> String {
+    match e {
+        Caught::Panic { msg, .. } => {
+            let m: String = msg.chars().filter(|c| !c.is_ascii_digit()).take(44).collect();
+            format!("panic:{}", m.trim())
+        }
+        Caught::Budget(r) => format!("budget:{r}"),
+        Caught::Oracle(_) => "oracle".into(),
+    }
+}
+
+fn same_snap(a: &Snap, b: &Snap) -> bool {
+    a.diag == b.diag && a.scalar == b.scalar && a.scalar_approx == b.scalar_approx
+}
+
+fn elems(l: &[BasisElem]) -> Value {
+    json!(l.iter().map(|b| format!("{b:?}")).collect::<Vec<_>>())
+}
+
+/// Evaluate a generated operand; None = skip (too wide) or harness error (ill-formed input).
+fn eval_operand(g: &impl GraphLike, what: &str) -> Option<Tens> {
+    match eval_graph(g) {
+        Ok(t) => Some(t),
+        Err(EvalError::TooWide(_)) => {
+            ctx().skipped();
+            None
+        }
+        Err(EvalError::IllFormed(m)) => {
+            ctx().harness_error(&format!("C11 generator produced an ill-formed {what}: {m}"));
+            None
+        }
+    }
+}
+
+/// Compare the evaluation of a result graph with the expected tensor.
+/// Returns None when fine, Some((class, extra)) otherwise.
+fn compare_result(g: &impl GraphLike, expect: &Tens) -> Option<(&'static str, Value)> {
+    match eval_graph(g) {
+        Ok(t) => {
+            if t.len() != expect.len() || !t.same(expect, FLOAT_TOL) {
+                Some(("map-mismatch", json!({"expected": expect.brief(), "observed": t.brief(), "result": graph_json(g)})))
+            } else {
+                None
+            }
+        }
+        Err(EvalError::IllFormed(m)) => Some(("ill-formed-result", json!({"why": m, "result": graph_json(g)}))),
+        Err(EvalError::TooWide(_)) => {
+            ctx().skipped();
+            None
+        }
+    }
+}
+
+// ------------------------------------------------------------------------------------
+// plug / append_graph
+// ------------------------------------------------------------------------------------
+
+struct Pair {
+    g: DDesc,
+    h: DDesc,
+    scr_g: Option<u64>,
+    scr_h: Option<u64>,
+}
+
+impl Pair {
+    fn json(&self) -> Value {
+        json!({"g": self.g.to_json(), "h": self.h.to_json(), "scramble_g": self.scr_g, "scramble_h": self.scr_h})
+    }
+}
+
+fn check_plug<G1: GraphLike, G2: GraphLike>(family: &'static str, index: u64, bk: &str, p: &Pair, expect: &Tens) {
+    let c = ctx();
+    let cond = seam_condition(&p.g, &p.h);
+    let (mut g, _) = p.g.build::<G1>(p.scr_g);
+    let (h, _) = p.h.build::<G2>(p.scr_h);
+    let g_inputs = g.inputs().clone();
+    let h_before = snap(&h).ok();
+    c.count(&format!("op:plug:{bk}"), 1);
+    c.count(&format!("plug:seam:{cond}"), 1);
+    let detail = |what: &str, extra: Value| json!({"op": "g.plug(&h)", "what": what, "backends": bk, "pair": p.json(), "seam": cond, "extra": extra});
+    match guarded(|| g.plug(&h)) {
+        Err(Caught::Oracle(m)) => c.inconclusive("oracle-error", json!({"msg": m})),
+        Err(e) => c.violation(&format!("plug|{}|{cond}", pclass(&e)), family, index, detail("panic", json!(e.text()))),
+        Ok(()) => {
+            if let (Some(a), Ok(b)) = (&h_before, snap(&h)) {
+                if !same_snap(a, &b) {
+                    c.violation("plug|argument-modified", family, index, detail("`other` changed", json!(null)));
+                }
+            }
+            if *g.inputs() != g_inputs || g.outputs().len() != p.h.outputs.len() {
+                c.violation(
+                    &format!("plug|boundary-lists-wrong|{cond}"),
+                    family,
+                    index,
+                    detail("inputs must stay, outputs must be those of `other`", json!({"inputs_before": g_inputs, "result": graph_json(&g)})),
+                );
+                return;
+            }
+            if let Some((class, extra)) = compare_result(&g, expect) {
+                c.violation(&format!("plug|{class}|{cond}"), family, index, detail("E(g.plug(h)) != compose(E(g), E(h))", extra));
+            }
+        }
+    }
+}
+
+fn check_append<G1: GraphLike, G2: GraphLike>(family: &'static str, index: u64, bk: &str, p: &Pair, expect: &Tens) {
+    let c = ctx();
+    let (mut g, _) = p.g.build::<G1>(p.scr_g);
+    let (h, _) = p.h.build::<G2>(p.scr_h);
+    let gv: BTreeSet<V> = g.vertices().collect();
+    let ge = g.num_edges();
+    let (g_in, g_out) = (g.inputs().clone(), g.outputs().clone());
+    c.count(&format!("op:append_graph:{bk}"), 1);
+    let detail = |what: &str, extra: Value| json!({"op": "g.append_graph(&h)", "what": what, "backends": bk, "pair": p.json(), "extra": extra});
+    let vmap = match guarded(|| g.append_graph(&h)) {
+        Err(Caught::Oracle(m)) => {
+            c.inconclusive("oracle-error", json!({"msg": m}));
+            return;
+        }
+        Err(e) => {
+            c.violation(&format!("append_graph|{}", pclass(&e)), family, index, detail("panic", json!(e.text())));
+            return;
+        }
+        Ok(m) => m,
+    };
+    let hv: BTreeSet<V> = h.vertices().collect();
+    let keys: BTreeSet<V> = vmap.keys().copied().collect();
+    let vals: BTreeSet<V> = vmap.values().copied().collect();
+    let now: BTreeSet<V> = g.vertices().collect();
+    let fresh = vals.iter().all(|v| !gv.contains(v) && now.contains(v));
+    if keys != hv || vals.len() != vmap.len() || !fresh || now.len() != gv.len() + hv.len() || g.num_edges() != ge + h.num_edges() {
+        c.violation(
+            "append_graph|renaming-not-a-bijection-onto-fresh-ids",
+            family,
+            index,
+            detail("renaming map", json!({"map": format!("{vmap:?}"), "old_vertices": gv, "result": graph_json(&g)})),
+        );
+        return;
+    }
+    if *g.inputs() != g_in || *g.outputs() != g_out {
+        c.violation("append_graph|boundary-lists-of-self-changed", family, index, detail("documented: NOT updated", graph_json(&g)));
+        return;
+    }
+    // complete the boundary lists as documented
+    let mut ins = g_in;
+    ins.extend(h.inputs().iter().map(|v| vmap[v]));
+    let mut outs = g_out;
+    outs.extend(h.outputs().iter().map(|v| vmap[v]));
+    g.set_inputs(ins);
+    g.set_outputs(outs);
+    if let Some((class, extra)) = compare_result(&g, expect) {
+        c.violation(&format!("append_graph|{class}"), family, index, detail("E(append) != E(g) (x) E(h)", extra));
+    }
+}
+
+fn pair_case(family: &'static str, index: u64, r: &mut Rng, g: DDesc, h: DDesc) {
+    let c = ctx();
+    let p = Pair {
+        g,
+        h,
+        scr_g: if r.chance(0.5) { Some(r.next_u64()) } else { None },
+        scr_h: if r.chance(0.5) { Some(r.next_u64()) } else { None },
+    };
+    let (g0, _) = p.g.build::<VG>(None);
+    let (h0, _) = p.h.build::<VG>(None);
+    let (Some(eg), Some(eh)) = (eval_operand(&g0, "g"), eval_operand(&h0, "h")) else {
+        return;
+    };
+    let (gi, go, hi, ho) = (p.g.inputs.len(), p.g.outputs.len(), p.h.inputs.len(), p.h.outputs.len());
+    assert_eq!(go, hi);
+    let composed = t_compose(&eg, gi, go, &eh, hi, ho);
+    check_plug::<VG, VG>(family, index, "vec<-vec", &p, &composed);
+    check_plug::<VG, HG>(family, index, "vec<-hash", &p, &composed);
+    check_plug::<HG, VG>(family, index, "hash<-vec", &p, &composed);
+    check_plug::<HG, HG>(family, index, "hash<-hash", &p, &composed);
+    if gi + hi + go + ho <= 12 {
+        let prod = t_tensor(&eg, gi, go, &eh, hi, ho);
+        check_append::<VG, VG>(family, index, "vec<-vec", &p, &prod);
+        check_append::<VG, HG>(family, index, "vec<-hash", &p, &prod);
+        check_append::<HG, VG>(family, index, "hash<-vec", &p, &prod);
+        check_append::<HG, HG>(family, index, "hash<-hash", &p, &prod);
+    }
+    c.count(&format!("plug:seam-width:{go}"), 1);
+    c.count(if composed.is_exact() { "oracle:exact" } else { "oracle:float" }, 1);
+    let nontrivial = p.g.verts.len() + p.h.verts.len() >= 2;
+    let hsh = hash_bytes(format!("{family}{:?}{:?}", p.g, p.h).as_bytes());
+    c.case(family, if nontrivial { Some(hsh) } else { None });
+    c.evals(7);
+    c.sample_n(3, || json!({"family": family, "index": index, "pair": p.json()}));
+}
+
+// ------------------------------------------------------------------------------------
+// adjoint, x_to_z, copy, subgraph, basis plugging: one diagram, one backend
+// ------------------------------------------------------------------------------------
+
+fn check_adjoint<G: GraphLike>(family: &'static str, index: u64, bk: &str, d: &DDesc, scr: Option<u64>, e: &Tens) {
+    let c = ctx();
+    let (g, _) = d.build::<G>(scr);
+    let (ni, no) = (d.inputs.len(), d.outputs.len());
+    let detail = |op: &str, what: &str, extra: Value| json!({"op": op, "what": what, "backend": bk, "diagram": d.to_json(), "scramble": scr, "extra": extra});
+    let Ok(s0) = snap(&g) else { return };
+    c.count(&format!("op:adjoint:{bk}"), 1);
+    let a = match guarded(|| g.to_adjoint()) {
+        Err(Caught::Oracle(m)) => {
+            c.inconclusive("oracle-error", json!({"msg": m}));
+            return;
+        }
+        Err(er) => {
+            c.violation(&format!("to_adjoint|{}", pclass(&er)), family, index, detail("to_adjoint", "panic", json!(er.text())));
+            return;
+        }
+        Ok(a) => a,
+    };
+    if !snap(&g).map(|s| same_snap(&s, &s0)).unwrap_or(false) {
+        c.violation("to_adjoint|receiver-modified", family, index, detail("to_adjoint", "receiver changed", json!(null)));
+    }
+    let want = t_dagger(e, ni, no);
+    if let Some((class, extra)) = compare_result(&a, &want) {
+        c.violation(&format!("to_adjoint|{class}"), family, index, detail("to_adjoint", "E(adjoint) != dagger(E(g))", extra));
+    }
+    let mut b = g.clone();
+    match guarded(|| b.adjoint()) {
+        Err(er) => c.violation(&format!("adjoint|{}", pclass(&er)), family, index, detail("adjoint", "panic", json!(er.text()))),
+        Ok(()) => {
+            let same = matches!((snap(&a), snap(&b)), (Ok(x), Ok(y)) if same_snap(&x, &y));
+            if !same {
+                c.violation("adjoint|differs-from-to_adjoint", family, index, detail("adjoint", "in-place and copying variants differ", graph_json(&b)));
+            }
+            if guarded(|| b.adjoint()).is_ok() {
+                let back = snap(&b).map(|s| same_snap(&s, &s0)).unwrap_or(false);
+                if !back {
+                    c.violation("adjoint|not-an-involution", family, index, detail("adjoint", "adjoint twice is not structurally the original", graph_json(&b)));
+                }
+                c.count("op:adjoint-twice", 1);
+            }
+        }
+    }
+    // helper: colour change
+    let mut z = g.clone();
+    c.count(&format!("op:x_to_z:{bk}"), 1);
+    match guarded(|| z.x_to_z()) {
+        Err(er) => c.violation(&format!("x_to_z|{}", pclass(&er)), family, index, detail("x_to_z", "panic", json!(er.text()))),
+        Ok(()) => {
+            if z.vertices().any(|v| z.vertex_type(v) == VType::X) {
+                c.violation("x_to_z|x-spider-left", family, index, detail("x_to_z", "X spider left", graph_json(&z)));
+            } else if let Some((class, extra)) = compare_result(&z, e) {
+                c.violation(&format!("x_to_z|{class}"), family, index, detail("x_to_z", "E changed", extra));
+            }
+        }
+    }
+}
+
+/// `copy` / `subgraph_from_vertices`: vertex data and edges under the order-preserving
+/// renaming onto 0..k (the k-th listed vertex becomes vertex k of a fresh graph).
+fn check_copy_helpers<G: GraphLike>(family: &'static str, index: u64, bk: &str, d: &DDesc, scr: Option<u64>, r: &mut Rng) {
+    let c = ctx();
+    let (g, _) = d.build::<G>(scr);
+    let detail = |op: &str, what: &str, extra: Value| json!({"op": op, "what": what, "backend": bk, "diagram": d.to_json(), "scramble": scr, "extra": extra});
+    let structure_ok = |res: &G, verts: &[V], negate: bool| -> Result<(), String> {
+        let k = verts.len();
+        let mut rv: Vec<V> = res.vertices().collect();
+        rv.sort();
+        if rv != (0..k).collect::<Vec<V>>() {
+            return Err(format!("vertex ids {rv:?} are not 0..{k}"));
+        }
+        let pos: BTreeMap<V, V> = verts.iter().enumerate().map(|(i, &v)| (v, i)).collect();
+        for (i, &v) in verts.iter().enumerate() {
+            let ph = if negate { -g.phase(v) } else { g.phase(v) };
+            if res.vertex_type(i) != g.vertex_type(v) || res.phase(i) != ph {
+                return Err(format!("vertex {v} -> {i}: type/phase differ"));
+            }
+        }
+        let mut want: Vec<(V, V, EType)> = g
+            .edges()
+            .filter_map(|(s, t, et)| {
+                let (a, b) = (*pos.get(&s)?, *pos.get(&t)?);
+                Some((a.min(b), a.max(b), et))
+            })
+            .collect();
+        want.sort();
+        let mut got: Vec<(V, V, EType)> = res.edges().map(|(s, t, et)| (s.min(t), s.max(t), et)).collect();
+        got.sort();
+        if want != got {
+            return Err(format!("edges differ: want {want:?} got {got:?}"));
+        }
+        Ok(())
+    };
+    let all: Vec<V> = g.vertices().collect();
+    for adj in [false, true] {
+        c.count(&format!("op:copy:{bk}"), 1);
+        match guarded(|| g.copy(adj)) {
+            Err(er) => c.violation(&format!("copy|{}", pclass(&er)), family, index, detail("copy", "panic", json!(er.text()))),
+            Ok(cp) => {
+                if let Err(m) = structure_ok(&cp, &all, adj) {
+                    c.violation("copy|structure-differs", family, index, detail("copy", &m, json!({"adjoint": adj, "result": graph_json(&cp)})));
+                }
+                // observations only (not part of the statement)
+                if !g.inputs().is_empty() || !g.outputs().is_empty() {
+                    if cp.inputs().is_empty() && cp.outputs().is_empty() {
+                        c.count("observed:copy:boundary-lists-not-carried-over", 1);
+                    } else {
+                        c.count("observed:copy:boundary-lists-carried-over", 1);
+                    }
+                }
+                if !g.scalar().is_one() {
+                    if cp.scalar().is_one() {
+                        c.count("observed:copy:scalar-not-carried-over", 1);
+                    } else {
+                        c.count("observed:copy:scalar-carried-over", 1);
+                    }
+                }
+            }
+        }
+    }
+    let mut sub: Vec<V> = all.iter().copied().filter(|_| r.chance(0.6)).collect();
+    r.shuffle(&mut sub);
+    c.count(&format!("op:subgraph_from_vertices:{bk}"), 1);
+    let sub2 = sub.clone();
+    match guarded(|| g.subgraph_from_vertices(sub2)) {
+        Err(er) => c.violation(&format!("subgraph_from_vertices|{}", pclass(&er)), family, index, detail("subgraph_from_vertices", "panic", json!(er.text()))),
+        Ok(sg) => {
+            if let Err(m) = structure_ok(&sg, &sub, false) {
+                c.violation(
+                    "subgraph_from_vertices|structure-differs",
+                    family,
+                    index,
+                    detail("subgraph_from_vertices", &m, json!({"verts": sub, "result": graph_json(&sg)})),
+                );
+            }
+        }
+    }
+}
+
+fn len_class(len: usize, n: usize) -> &'static str {
+    if len < n {
+        "list-shorter-than-wires"
+    } else {
+        "full-length-list"
+    }
+}
+
+const REAL_ELEMS: [BasisElem; 4] = [BasisElem::Z0, BasisElem::Z1, BasisElem::X0, BasisElem::X1];
+const ALL_ELEMS: [BasisElem; 5] = [BasisElem::Z0, BasisElem::Z1, BasisElem::X0, BasisElem::X1, BasisElem::SKIP];
+
+/// lists to try for one length: all 5^len when that is at most 25, else `k` random ones
+/// (always including the all-SKIP list and one list without SKIP)
+fn lists_of_len(r: &mut Rng, len: usize, k: usize) -> Vec<Vec<BasisElem>> {
+    if 5usize.pow(len as u32) <= 25 {
+        let mut out = vec![];
+        for mut code in 0..5usize.pow(len as u32) {
+            let mut l = vec![];
+            for _ in 0..len {
+                l.push(ALL_ELEMS[code % 5]);
+                code /= 5;
+            }
+            out.push(l);
+        }
+        out
+    } else {
+        let mut out = vec![vec![BasisElem::SKIP; len], (0..len).map(|_| *r.pick(&REAL_ELEMS)).collect()];
+        for _ in 0..k {
+            out.push((0..len).map(|_| if r.chance(0.3) { BasisElem::SKIP } else { *r.pick(&REAL_ELEMS) }).collect());
+        }
+        out
+    }
+}
+
+fn check_basis<G: GraphLike>(family: &'static str, index: u64, bk: &str, d: &DDesc, scr: Option<u64>, e: &Tens, r: &mut Rng) {
+    let c = ctx();
+    let (ni, no) = (d.inputs.len(), d.outputs.len());
+    let nlegs = ni + no;
+    let (g0, _) = d.build::<G>(scr);
+    let detail = |op: String, what: &str, extra: Value| json!({"op": op, "what": what, "backend": bk, "diagram": d.to_json(), "scramble": scr, "extra": extra});
+    // plug_inputs / plug_outputs with every list length 0..=n
+    for on_inputs in [true, false] {
+        let (n, name, off) = if on_inputs { (ni, "plug_inputs", 0) } else { (no, "plug_outputs", ni) };
+        for len in 0..=n {
+            for list in lists_of_len(r, len, 3) {
+                let mut g = g0.clone();
+                let before_in = g.inputs().clone();
+                let before_out = g.outputs().clone();
+                let lc = len_class(len, n);
+                c.count(&format!("op:{name}:{lc}"), 1);
+                c.count(&format!("{name}:list-length:{len}-of-{n}"), 1);
+                if list.iter().any(|b| *b == BasisElem::SKIP) {
+                    c.count(&format!("op:{name}:with-SKIP"), 1);
+                }
+                let res = guarded(|| if on_inputs { g.plug_inputs(&list) } else { g.plug_outputs(&list) });
+                let opname = format!("{name}({:?})", list);
+                match res {
+                    Err(Caught::Oracle(m)) => c.inconclusive("oracle-error", json!({"msg": m})),
+                    Err(er) => c.violation(
+                        &format!("{name}|{}|{lc}", pclass(&er)),
+                        family,
+                        index,
+                        detail(opname, "panic", json!({"panic": er.text(), "list": elems(&list), "wires": n})),
+                    ),
+                    Ok(()) => {
+                        let keep = |k: usize| k >= len || list[k] == BasisElem::SKIP;
+                        let (want_in, want_out): (Vec<V>, Vec<V>) = if on_inputs {
+                            (before_in.iter().enumerate().filter(|(k, _)| keep(*k)).map(|(_, v)| *v).collect(), before_out.clone())
+                        } else {
+                            (before_in.clone(), before_out.iter().enumerate().filter(|(k, _)| keep(*k)).map(|(_, v)| *v).collect())
+                        };
+                        if *g.inputs() != want_in || *g.outputs() != want_out {
+                            c.violation(
+                                &format!("{name}|remaining-wires-wrong|{lc}"),
+                                family,
+                                index,
+                                detail(opname, "open wires must keep their order", json!({"list": elems(&list), "want_inputs": want_in, "want_outputs": want_out, "result": graph_json(&g)})),
+                            );
+                            continue;
+                        }
+                        let plugs: Vec<(usize, BasisElem)> = list.iter().enumerate().map(|(k, b)| (off + k, *b)).collect();
+                        let want = t_apply(e, nlegs, &plugs, false);
+                        if let Some((class, extra)) = compare_result(&g, &want) {
+                            c.violation(&format!("{name}|{class}|{lc}"), family, index, detail(opname, "E != basis elements applied", json!({"list": elems(&list), "cmp": extra})));
+                        }
+                    }
+                }
+            }
+        }
+        // plug_input(i, b) / plug_output(i, b)
+        let name1 = if on_inputs { "plug_input" } else { "plug_output" };
+        for i in 0..n {
+            let choice: Vec<BasisElem> = if n <= 2 { REAL_ELEMS.to_vec() } else { vec![*r.pick(&REAL_ELEMS)] };
+            for b in choice {
+                let mut g = g0.clone();
+                let mut want_in = g.inputs().clone();
+                let mut want_out = g.outputs().clone();
+                if on_inputs {
+                    want_in.remove(i);
+                } else {
+                    want_out.remove(i);
+                }
+                c.count(&format!("op:{name1}:{b:?}"), 1);
+                let opname = format!("{name1}({i}, {b:?})");
+                match guarded(|| if on_inputs { g.plug_input(i, b) } else { g.plug_output(i, b) }) {
+                    Err(Caught::Oracle(m)) => c.inconclusive("oracle-error", json!({"msg": m})),
+                    Err(er) => c.violation(&format!("{name1}|{}", pclass(&er)), family, index, detail(opname, "panic", json!(er.text()))),
+                    Ok(()) => {
+                        if *g.inputs() != want_in || *g.outputs() != want_out {
+                            c.violation(&format!("{name1}|remaining-wires-wrong"), family, index, detail(opname, "open wires must keep their order", graph_json(&g)));
+                            continue;
+                        }
+                        let want = t_apply(e, nlegs, &[(off + i, b)], false);
+                        if let Some((class, extra)) = compare_result(&g, &want) {
+                            c.violation(&format!("{name1}|{class}"), family, index, detail(opname, "E != basis element applied", extra));
+                        }
+                    }
+                }
+            }
+        }
+    }
+    // plug_vertex(v, b): no normalisation, boundary lists untouched (documented)
+    for leg in 0..nlegs {
+        let choice: Vec<BasisElem> = if nlegs <= 3 { ALL_ELEMS.to_vec() } else { vec![*r.pick(&ALL_ELEMS), BasisElem::SKIP] };
+        for b in choice {
+            let mut g = g0.clone();
+            let v = if leg < ni { g.inputs()[leg] } else { g.outputs()[leg - ni] };
+            let (bi, bo) = (g.inputs().clone(), g.outputs().clone());
+            c.count(&format!("op:plug_vertex:{b:?}"), 1);
+            let opname = format!("plug_vertex({v}, {b:?})");
+            match guarded(|| g.plug_vertex(v, b)) {
+                Err(Caught::Oracle(m)) => c.inconclusive("oracle-error", json!({"msg": m})),
+                Err(er) => c.violation(&format!("plug_vertex|{}", pclass(&er)), family, index, detail(opname, "panic", json!(er.text()))),
+                Ok(()) => {
+                    if *g.inputs() != bi || *g.outputs() != bo {
+                        c.violation("plug_vertex|boundary-lists-changed", family, index, detail(opname, "documented: lists are not updated", graph_json(&g)));
+                        continue;
+                    }
+                    if b == BasisElem::SKIP {
+                        let same = matches!((snap(&g), snap(&g0)), (Ok(x), Ok(y)) if same_snap(&x, &y));
+                        if !same {
+                            c.violation("plug_vertex|SKIP-changed-the-graph", family, index, detail(opname, "SKIP must leave the wire open", graph_json(&g)));
+                        }
+                        continue;
+                    }
+                    if leg < ni {
+                        g.inputs_mut().remove(leg);
+                    } else {
+                        g.outputs_mut().remove(leg - ni);
+                    }
+                    let want = t_apply(e, nlegs, &[(leg, b)], true);
+                    if let Some((class, extra)) = compare_result(&g, &want) {
+                        c.violation(&format!("plug_vertex|{class}"), family, index, detail(opname, "E != sqrt2 * basis element applied", extra));
+                    }
+                }
+            }
+        }
+    }
+}
+
+fn unary_case(family: &'static str, index: u64, r: &mut Rng, d: DDesc) {
+    let c = ctx();
+    let scr = if r.chance(0.5) { Some(r.next_u64()) } else { None };
+    let (g0, _) = d.build::<VG>(None);
+    let Some(e) = eval_operand(&g0, "diagram") else { return };
+    check_adjoint::<VG>(family, index, "vec", &d, scr, &e);
+    check_adjoint::<HG>(family, index, "hash", &d, scr, &e);
+    check_copy_helpers::<VG>(family, index, "vec", &d, scr, r);
+    check_copy_helpers::<HG>(family, index, "hash", &d, scr, r);
+    check_basis::<VG>(family, index, "vec", &d, scr, &e, r);
+    check_basis::<HG>(family, index, "hash", &d, scr, &e, r);
+    c.count(if e.is_exact() { "oracle:exact" } else { "oracle:float" }, 1);
+    c.count(&format!("unary:wires:{}in-{}out", d.inputs.len(), d.outputs.len()), 1);
+    let hsh = hash_bytes(format!("{family}{d:?}").as_bytes());
+    c.case(family, if d.verts.len() >= 2 { Some(hsh) } else { None });
+    c.sample_n(6, || json!({"family": family, "index": index, "diagram": d.to_json()}));
+}
+
+// ------------------------------------------------------------------------------------
+// is_identity
+// ------------------------------------------------------------------------------------
+
+/// The harness predicate: exactly 2n vertices, i-th input joined to i-th output by a plain
+/// edge (and, the description being well-formed, therefore nothing else).
+/// Returns (strict, same test ignoring the edge kind).
+fn identity_predicate(d: &DDesc) -> (bool, bool) {
+    let n = d.inputs.len();
+    if d.outputs.len() != n || d.verts.len() != 2 * n {
+        return (false, false);
+    }
+    let mut strict = true;
+    let mut loose = true;
+    for i in 0..n {
+        let (a, b) = (d.inputs[i].min(d.outputs[i]), d.inputs[i].max(d.outputs[i]));
+        match d.edges.iter().find(|e| e.0 == a && e.1 == b) {
+            Some(e) => {
+                if e.2 != EK::N {
+                    strict = false;
+                }
+            }
+            None => {
+                strict = false;
+                loose = false;
+            }
+        }
+    }
+    (strict, loose)
+}
+
+/// near-identity wire diagrams; returns the description and the name of the variant
+fn gen_near_identity(r: &mut Rng) -> (DDesc, &'static str) {
+    let n = r.below(5);
+    let bv = || DV { kind: VK::B, ph: (0, 1), vars: vec![] };
+    // creation order of the 2n boundary vertices is random
+    let mut ids: Vec<usize> = (0..2 * n).collect();
+    r.shuffle(&mut ids);
+    let mut verts: Vec<DV> = (0..2 * n).map(|_| bv()).collect();
+    let mut inputs: Vec<usize> = ids[..n].to_vec();
+    let mut outputs: Vec<usize> = ids[n..].to_vec();
+    let mut kinds: Vec<EK> = vec![EK::N; n];
+    let mut variant = "identity";
+    let mut extra_edges: Vec<(usize, usize, EK)> = vec![];
+    let mut drop_wires: Vec<usize> = vec![];
+    let choice = r.below(10);
+    match choice {
+        0 | 1 => {}
+        2 if n >= 2 => {
+            // permuted outputs (not the identity permutation)
+            let orig = outputs.clone();
+            while outputs == orig {
+                r.shuffle(&mut outputs);
+            }
+            // wires still join inputs[i] to orig[i]
+            variant = "permuted-wires";
+            let mut edges = vec![];
+            for i in 0..n {
+                edges.push(norm_edge(inputs[i], orig[i], EK::N));
+            }
+            return (DDesc { verts, edges, inputs, outputs, scalar: gen_scalar(r) }, variant);
+        }
+        3 if n >= 1 => {
+            let k = 1 + r.below(n);
+            let mut w: Vec<usize> = (0..n).collect();
+            r.shuffle(&mut w);
+            for &i in &w[..k] {
+                kinds[i] = EK::H;
+            }
+            variant = "hadamard-wires";
+        }
+        4 => {
+            verts.push(DV { kind: if r.chance(0.5) { VK::Z } else { VK::X }, ph: gen_phase(r, PhasePool::Exact), vars: vec![] });
+            variant = "extra-isolated-spider";
+        }
+        5 if n >= 2 => {
+            // wires 0 and 1 replaced by an input-input cap and an output-output cup
+            drop_wires = vec![0, 1];
+            let k = if r.chance(0.3) { EK::H } else { EK::N };
+            extra_edges.push(norm_edge(inputs[0], inputs[1], k));
+            extra_edges.push(norm_edge(outputs[0], outputs[1], k));
+            variant = "cap-and-cup";
+        }
+        6 if n >= 1 => {
+            // a phase-free spider in the middle of wire 0
+            let s = verts.len();
+            verts.push(DV { kind: VK::Z, ph: (0, 1), vars: vec![] });
+            drop_wires = vec![0];
+            extra_edges.push(norm_edge(inputs[0], s, EK::N));
+            extra_edges.push(norm_edge(s, outputs[0], EK::N));
+            variant = "spider-on-wire";
+        }
+        7 if n >= 1 => {
+            // the two ends of some wires exchange roles: still plain wires from the i-th
+            // input to the i-th output
+            for i in 0..n {
+                if r.chance(0.5) {
+                    std::mem::swap(&mut inputs[i], &mut outputs[i]);
+                }
+            }
+            variant = "identity-ends-exchanged";
+        }
+        8 => {
+            // an extra output-output (or input-input) wire: arities differ
+            let a = verts.len();
+            verts.push(bv());
+            let b = verts.len();
+            verts.push(bv());
+            extra_edges.push((a, b, EK::N));
+            if r.chance(0.5) {
+                outputs.push(a);
+                outputs.push(b);
+            } else {
+                inputs.push(a);
+                inputs.push(b);
+            }
+            variant = "extra-cup-or-cap";
+        }
+        9 if n >= 2 => {
+            // hadamard wire and a transposition
+            kinds[0] = EK::H;
+            let mut edges = vec![];
+            for i in 0..n {
+                edges.push(norm_edge(inputs[i], outputs[i], kinds[i]));
+            }
+            outputs.swap(0, 1);
+            return (DDesc { verts, edges, inputs, outputs, scalar: gen_scalar(r) }, "hadamard-and-permuted");
+        }
+        _ => {}
+    }
+    let mut edges = vec![];
+    for i in 0..n {
+        if !drop_wires.contains(&i) {
+            edges.push(norm_edge(inputs[i], outputs[i], kinds[i]));
+        }
+    }
+    edges.extend(extra_edges);
+    (DDesc { verts, edges, inputs, outputs, scalar: gen_scalar(r) }, variant)
+}
+
+fn check_identity<G: GraphLike>(family: &'static str, index: u64, bk: &str, d: &DDesc, scr: Option<u64>, variant: &str) {
+    let c = ctx();
+    let (g, _) = d.build::<G>(scr);
+    let (strict, loose) = identity_predicate(d);
+    c.count(&format!("op:is_identity:{bk}"), 1);
+    let detail = |what: &str, obs: Value| json!({"op": "is_identity", "what": what, "backend": bk, "variant": variant, "diagram": d.to_json(), "scramble": scr, "expected": strict, "observed": obs});
+    match guarded(|| g.is_identity()) {
+        Err(Caught::Oracle(m)) => c.inconclusive("oracle-error", json!({"msg": m})),
+        Err(er) => c.violation(&format!("is_identity|{}", pclass(&er)), family, index, detail("panic", json!(er.text()))),
+        Ok(obs) => {
+            c.count(&format!("is_identity:expected-{strict}:observed-{obs}"), 1);
+            if obs && !strict {
+                let cond = if loose { "hadamard-wire" } else { "not-a-wire-diagram" };
+                c.violation(&format!("is_identity|true-for-non-identity|{cond}"), family, index, detail("answers true for a diagram that is not plain in-order wires", json!(obs)));
+            } else if !obs && strict {
+                c.violation("is_identity|false-for-identity", family, index, detail("answers false for plain in-order wires", json!(obs)));
+            }
+        }
+    }
+}
+
+fn identity_case(family: &'static str, index: u64, r: &mut Rng, d: DDesc, variant: &'static str) {
+    let c = ctx();
+    let scr = if r.chance(0.5) { Some(r.next_u64()) } else { None };
+    // sanity of the harness predicate itself: strict => E = scalar * identity matrix
+    let (strict, _) = identity_predicate(&d);
+    let (g0, _) = d.build::<VG>(None);
+    match eval_graph(&g0) {
+        Ok(t) => {
+            if strict {
+                let n = d.inputs.len();
+                let f = t.to_float();
+                let s = f[0];
+                let ok = (0..(1usize << n)).all(|i| (0..(1usize << n)).all(|o| (f[(i << n) | o] - if i == o { s } else { Cf::new(0.0, 0.0) }).norm() < 1e-9));
+                if !ok {
+                    c.harness_error(&format!("identity predicate accepted a diagram whose tensor is not a multiple of the identity: {}", d.to_json()));
+                    return;
+                }
+            }
+        }
+        Err(EvalError::IllFormed(m)) => {
+            c.harness_error(&format!("C11 identity generator produced an ill-formed diagram: {m}: {}", d.to_json()));
+            return;
+        }
+        Err(EvalError::TooWide(_)) => {}
+    }
+    check_identity::<VG>(family, index, "vec", &d, scr, variant);
+    check_identity::<HG>(family, index, "hash", &d, scr, variant);
+    c.count(&format!("identity-variant:{variant}"), 1);
+    let hsh = hash_bytes(format!("{family}{d:?}").as_bytes());
+    c.case(family, if d.verts.len() >= 2 { Some(hsh) } else { None });
+    c.evals(1);
+}
+
+// ------------------------------------------------------------------------------------
+// run
+// ------------------------------------------------------------------------------------
 
 pub fn run() {
-    ctx().harness_error("C11 monitor not implemented yet");
+    let c = ctx();
+    if let Err(e) = self_test() {
+        c.harness_error(&format!("C11 tensor-contraction self-test failed: {e}"));
+        return;
+    }
+    let t = c.tier;
+    c.set_rule(
+        "cases = generated pairs of composable diagrams (plug x 4 backend combinations, append_graph x 4), single diagrams (adjoint/to_adjoint/x_to_z/copy/subgraph, plug_inputs/plug_outputs for every list length 0..=n with SKIP patterns, plug_input/plug_output/plug_vertex; both backends) and wire diagrams for is_identity; a case is non-trivial when its diagrams have >= 2 vertices in total; distinct = distinct (family, description) hashes",
+    );
+    c.assume("independent evaluator O2 (harness/src/oracle/eval.rs), exact ring O1 and the flat tensor algebra (compose/tensor/dagger/leg contraction, self-tested at start) are correct");
+    c.assume("plug_vertex: expected value is sqrt2 * normalised basis element (documented: no normalisation, boundary lists untouched); plug_input/plug_output are only called with Z0,Z1,X0,X1; lists longer than the number of wires are never passed");
+    c.assume("copy / subgraph_from_vertices are outside the statement: only vertex/edge structure is judged; boundary lists and scalar of the copy are observed, not judged");
+
+    let arb = Shape { max_spiders: 5, pool: PhasePool::Exact, graph_like: false, bare_p: 0.15, h_p: 0.35, multi_p: 0.3, same_role_pairs: false };
+    let n_pairs = t.pick(500usize, 30_000usize);
+    let max_sp = t.pick(5usize, 7usize);
+
+    par_cases("plug-arbitrary-exact", n_pairs, move |r, i| {
+        let sh = Shape { max_spiders: max_sp, ..arb };
+        let m = r.below(4);
+        let (gi, ho) = (r.below(4), r.below(4));
+        let g = gen_shaped(r, &sh, gi, m);
+        let h = gen_shaped(r, &sh, m, ho);
+        pair_case("plug-arbitrary-exact", i, r, g, h);
+    });
+    par_cases("plug-graph-like", n_pairs / 2, move |r, i| {
+        let sh = Shape { max_spiders: max_sp + 1, pool: PhasePool::CliffordHeavy, graph_like: true, bare_p: 0.05, ..arb };
+        let m = r.below(4);
+        let (gi, ho) = (r.below(4), r.below(4));
+        let g = gen_shaped(r, &sh, gi, m);
+        let h = gen_shaped(r, &sh, m, ho);
+        pair_case("plug-graph-like", i, r, g, h);
+    });
+    par_cases("plug-arbitrary-float", n_pairs / 2, move |r, i| {
+        let sh = Shape { max_spiders: max_sp, pool: PhasePool::Float, ..arb };
+        let m = r.below(4);
+        let (gi, ho) = (r.below(3), r.below(3));
+        let g = gen_shaped(r, &sh, gi, m);
+        let h = gen_shaped(r, &sh, m, ho);
+        pair_case("plug-arbitrary-float", i, r, g, h);
+    });
+    // seam stress: tiny operands, wide seams, many wires into one spider (parallel-edge
+    // resolution incl. Z-X and same-colour cases), H on boundary edges, bare wires
+    par_cases("plug-seam-stress", n_pairs * 2, move |r, i| {
+        let sh = Shape { max_spiders: 2, pool: PhasePool::Exact, graph_like: false, bare_p: 0.2, h_p: 0.5, multi_p: 0.75, same_role_pairs: false };
+        let m = 1 + r.below(4);
+        let (gi, ho) = (r.below(3), r.below(3));
+        let g = gen_shaped(r, &sh, gi, m);
+        let h = gen_shaped(r, &sh, m, ho);
+        pair_case("plug-seam-stress", i, r, g, h);
+    });
+    // caps and cups: bare wires between boundaries of the same role on either side
+    par_cases("plug-caps-cups", n_pairs, move |r, i| {
+        let sg = Shape { max_spiders: 2, pool: PhasePool::Exact, graph_like: false, bare_p: *r.pick(&[0.0, 0.5, 0.8]), h_p: 0.4, multi_p: 0.4, same_role_pairs: true };
+        let sh = Shape { bare_p: *r.pick(&[0.0, 0.5, 0.8]), ..sg };
+        let m = 1 + r.below(4);
+        let (gi, ho) = (r.below(3), r.below(3));
+        let g = gen_shaped(r, &sg, gi, m);
+        let h = gen_shaped(r, &sh, m, ho);
+        pair_case("plug-caps-cups", i, r, g, h);
+    });
+
+    let n_un = t.pick(300usize, 15_000usize);
+    let max_w = t.pick(3usize, 4usize);
+    par_cases("unary-arbitrary-exact", n_un, move |r, i| {
+        let sh = Shape { max_spiders: max_sp, ..arb };
+        let (ni, no) = (r.below(max_w + 1), r.below(max_w + 1));
+        let d = gen_shaped(r, &sh, ni, no);
+        unary_case("unary-arbitrary-exact", i, r, d);
+    });
+    par_cases("unary-bare-wires", n_un / 2, move |r, i| {
+        let sh = Shape { max_spiders: 1, pool: PhasePool::Exact, graph_like: false, bare_p: 0.6, h_p: 0.5, multi_p: 0.5, same_role_pairs: r.chance(0.5) };
+        let (ni, no) = (r.below(max_w + 1), r.below(max_w + 1));
+        let d = gen_shaped(r, &sh, ni, no);
+        unary_case("unary-bare-wires", i, r, d);
+    });
+    par_cases("unary-arbitrary-float", n_un / 2, move |r, i| {
+        let sh = Shape { max_spiders: max_sp, pool: PhasePool::Float, ..arb };
+        let (ni, no) = (r.below(max_w + 1), r.below(max_w + 1));
+        let d = gen_shaped(r, &sh, ni, no);
+        unary_case("unary-arbitrary-float", i, r, d);
+    });
+    par_cases("unary-gen-random", n_un / 2, move |r, i| {
+        // the shared generator (arbitrary boundary split, isolated spiders, bare wires)
+        let d = gen_random(r, &DiagParams { max_spiders: max_sp, max_bnd: 5, pool: PhasePool::CliffordHeavy, graph_like: r.chance(0.3), bare_wires: true, var_prob: 0.0 });
+        unary_case("unary-gen-random", i, r, d);
+    });
+
+    let n_id = t.pick(1500usize, 60_000usize);
+    par_cases("identity-near", n_id, move |r, i| {
+        let (d, variant) = gen_near_identity(r);
+        identity_case("identity-near", i, r, d, variant);
+    });
+    par_cases("identity-random", n_id / 3, move |r, i| {
+        let d = if r.chance(0.5) {
+            gen_random(r, &DiagParams { max_spiders: 2, max_bnd: 4, pool: PhasePool::Pauli, graph_like: false, bare_wires: true, var_prob: 0.0 })
+        } else {
+            let sh = Shape { max_spiders: 0, pool: PhasePool::Exact, graph_like: false, bare_p: 1.0, h_p: 0.2, multi_p: 0.0, same_role_pairs: false };
+            let n = r.below(4);
+            gen_shaped(r, &sh, n, n)
+        };
+        identity_case("identity-random", i, r, d, "random");
+    });
+    c.extra("exhaustive", json!(false));
+    c.extra(
+        "list_lengths",
+        json!("plug_inputs/plug_outputs: every length 0..=n per diagram; all 5^len lists when 5^len <= 25, otherwise all-SKIP + one SKIP-free + 3 random lists"),
+    );
 }
